@@ -77,6 +77,41 @@ def gen(rng, tier):
     for env, cc in COMBOS32:
         ops.append(line(env, cc, 0, [(42, "v59"), (43, "v69"), (79, "v79"), (38, "r38"), (43, "v79")]))
         ops.append(line(env, cc, 1, [(79, "v79"), (79, "v79"), (79, "v79"), (79, "v79"), (38, "i80000000")]))
+    # S5 AArch64 (AAPCS64 / Apple arm64): immediates and registers of every integer type at register and stack positions (Apple packs
+    # 8/16-bit stack arguments at their natural size), floats / vectors in registers and on the stack, with and without the local
+    for env in ("a64l", "a64d"):
+        for t in INTS:
+            for rot in range(0, len(BOUNDARY), 4 if tier == "quick" else 1):
+                for loc in (0, 1):
+                    ops.append(line(env, 0, loc, [(40, "i%x" % (k + 1)) for k in range(8)] +
+                                    [(t, "i%x" % BOUNDARY[(rot + k) % len(BOUNDARY)]) for k in range(6)]))
+            ops.append(line(env, 0, 0, [(t, "i%x" % BOUNDARY[(3 * k) % len(BOUNDARY)]) for k in range(8)]))
+            ops.append(line(env, 0, 0, [(t, "r%d" % t) for k in range(12)]))
+            ops.append(line(env, 0, 1, [(40, "i%x" % (k + 1)) for k in range(8)] + [(t, "r%d" % INTS[(k + t) % 8]) for k in range(5)]))
+        # many small stack arguments: the last store must stay inside the argument area (the local follows it)
+        for nsmall in (1, 2, 3, 7, 8, 9, 15, 16, 17):
+            for t in (34, 35, 36, 37, 38):
+                ops.append(line(env, 0, 1, [(40, "i%x" % (k + 1)) for k in range(8)] + [(t, "i%x" % (0x11 * (k + 1))) for k in range(nsmall)]))
+                ops.append(line(env, 0, 1, [(40, "i%x" % (k + 1)) for k in range(8)] + [(t, "r%d" % t) for k in range(min(nsmall, 10))]))
+        fts = [(42, "v42"), (43, "v43"), (79, "v79"), (43, "v69"), (43, "v43")]
+        for rot in range(5):
+            ops.append(line(env, 0, rot & 1, [fts[(rot + k) % 5] for k in range(12)]))
+        ops.append(line(env, 0, 0, [(40, "v79"), (43, "r40")]))
+    for _ in range(nrand // 3):
+        env = rng.choice(("a64l", "a64d"))
+        args = []
+        for k in range(rng.randint(1, 16)):
+            c = rng.random()
+            t = rng.choice(INTS)
+            if c < 0.5:
+                v = rng.choice(BOUNDARY) if rng.random() < 0.7 else rng.getrandbits(rng.choice([8, 16, 31, 32, 33, 63, 64]))
+                args.append((t, "i%x" % v))
+            elif c < 0.8:
+                args.append((t, "r%d" % (t if rng.random() < 0.6 else rng.choice(INTS))))
+            else:
+                vt = rng.choice([42, 43, 79])
+                args.append((vt, "v%d" % vt))
+        ops.append(line(env, 0, rng.choice([0, 1]), args))
     # S4 seeded random mixes
     for _ in range(nrand):
         env, cc = rng.choice(COMBOS64 + COMBOS32)
@@ -197,13 +232,15 @@ def norm_insts(text, css):
             continue
         w = t.split()
         name = w[0]
-        if name in ("mov", "movaps", "vmovaps", "movups", "vmovups", "movq", "movd", "xchg") and len(w) == 3 and w[1][0] == "r" and w[2][0] == "r":
+        if name in ("mov", "movaps", "vmovaps", "movups", "vmovups", "movq", "movd", "xchg", "fmov") and len(w) == 3 and w[1][0] == "r" and w[2][0] == "r":
             continue                                            # register-register move inserted by the allocator
-        mem = [x for x in w[1:] if x.startswith("m4.")]
+        mem = [x for x in w[1:] if x.startswith("m4.") or x.startswith("m31.")]
         if mem and css is not None and int(mem[0].split(".")[1]) >= css and name != "lea":
             continue                                            # spill slot / local above the call area
+        if name in ("call", "blr"):
+            t = "call"                                           # the target operand differs (immediate / register)
         t = REG.sub(lambda m: "r%s.*" % m.group(1), t)
-        t = MEMB.sub(lambda m: "m4." if m.group(1) == "4" else "m*.", t)
+        t = MEMB.sub(lambda m: "m%s." % m.group(1) if m.group(1) in ("4", "31") else "m*.", t)
         out.append(t)
     return out
 
@@ -246,9 +283,25 @@ def reg_class_key(x64, cc, win, tids, ops, k):
     return "invoke:reg-arg:%d-from-%d:%s-position" % (dt, st, pos)
 
 
+K10 = "invoke:a64-stack-store-wider-than-argument"
+K11 = "invoke:a64-reg-arg-not-extended"
+
+
 def iv_key(op, mon):
     """stable class of a monitor verdict: which lowering path fed the failing argument"""
     w = op.split()
+    if w[1].startswith("a64"):
+        if "call area" in mon or "alignment" in mon:
+            return "invoke:a64:call-stack-size"
+        if "local overwritten" in mon:
+            return K10
+        m = re.match(r"BAD arg (\d+)", mon)
+        if m:
+            t, o = w[5 + int(m.group(1))].split("=")
+            if o[0] == "r" and int(t) in SIZE and int(o[1:]) in SIZE and SIZE[int(t)] > SIZE[int(o[1:])]:
+                return K11
+            return "invoke:a64:%s-arg:%s-from-%s" % ({"i": "imm", "r": "reg", "v": "vec"}[o[0]], t, o[1:])
+        return "invoke:a64:" + mon.split()[0] + (":" + mon.split()[1] if len(mon.split()) > 1 else "")
     m = re.match(r"BAD arg (\d+)", mon)
     if m:
         k = int(m.group(1))
@@ -303,7 +356,7 @@ def run_invoke(res, h, rng):
         res.violation("invoke lowering: the callee does not see the argument the caller passed (%s, %d inputs): %s -> %s ; monitor: %s"
                       % (key, len(lst), o, a[:400], m), {"ops": [o], "impl": a, "monitor": m}, True, key=key)
     bad_ops = {o for lst in bad.values() for o, _, _ in lst}
-    nat = lambda o: 16 if o.split()[1].startswith("x64") else 4
+    nat = lambda o: 4 if o.split()[1].startswith("x86") else 16
     diffs = [(o, a, b) for o, a, b in zip(ops, impl, model) if corr_view(a, nat(o)) != corr_view(b, nat(o)) and o not in bad_ops]
     kinds = {}
     for o, a in zip(ops, impl):
